@@ -538,6 +538,27 @@ theorem trans_C17_startTail_v2 (sh : Int) (lm : Bool) (ph pv : Nat) (e : String)
   cases lm <;> by_cases he : e = "" <;> rcases this with h | h <;>
     simp [v2_sr_startTail, v2_sr_scheduleProvision, he, h]
 
+/-- v1: `Start` goes on only from the provisioned phase (1): only in the order Provision, Start, Stop; a stopped
+resource (3) never starts again; a second `Stop` closes nothing -/
+theorem trans_C17_startHead_v1 (ph : Nat) :
+    v1_sr_startHead ⟨ph⟩ = (if ph = 1 then "" else "RateLimiterImproperOrderError") := by
+  by_cases h : ph = 1
+  · simp [v1_sr_startHead, h]
+  · have h' : ¬ (ph : Int) = 1 := by omega
+    simp [v1_sr_startHead, h, h']
+
+theorem trans_C17_Stop_v1 (ph : Nat) (hasStop : Bool) :
+    v1_sr_Stop ⟨ph⟩ hasStop = (if ph = 3 then (⟨3⟩, false, false) else (⟨3⟩, hasStop, true)) := by
+  by_cases h : ph = 3
+  · simp [v1_sr_Stop, h]
+  · have h' : ¬ (ph : Int) = 3 := by omega
+    cases hasStop <;> simp [v1_sr_Stop, h, h']
+
+theorem trans_C17_no_start_after_stop_v1 (ph : Nat) (hasStop : Bool) :
+    v1_sr_startHead (v1_sr_Stop ⟨ph⟩ hasStop).1 = "RateLimiterImproperOrderError" := by
+  rw [trans_C17_Stop_v1]
+  by_cases h : ph = 3 <;> simp [h] <;> exact trans_C17_startHead_v1 3
+
 /-! ### Batcher: the admission checks at the head of `Enqueue`, and `applyDefaults`
 
 `v?_enqueueAdmit` is the translation of everything `Enqueue` does BEFORE its first `r.incTarget(...)`; the calls
